@@ -74,7 +74,7 @@ FT == [set |-> "SET_STATEMENT", add |-> "ADD_STATEMENT", unset |-> "UNSET_STATEM
        acl |-> "ACL_DECLARATION", cidr |-> "ACL_CIDR", backend |-> "BACKEND_DECLARATION", bprop |-> "BACKEND_PROPERTY",
        bprobe |-> "BACKEND_PROBE", director |-> "DIRECTOR_DECLARATION", dprop |-> "DIRECTOR_PROPERTY",
        dbackend |-> "DIRECTOR_BACKEND", table |-> "TABLE_DECLARATION", tprop |-> "TABLE_PROPERTY",
-       sub |-> "SUBROUTINE_DECLARATION", penaltybox |-> "PENALTYBOX_DECLARATION", ratecounter |-> "RATECOUNTER_DECLARATION",
+       sub |-> "SUBROUTINE_DECLARATION", param |-> "SUBROUTINE_PARAMETER", penaltybox |-> "PENALTYBOX_DECLARATION", ratecounter |-> "RATECOUNTER_DECLARATION",
        group |-> "GROUPED_EXPRESSION", infix |-> "INFIX_EXPRESSION", postfix |-> "POSTFIX_EXPRESSION",
        prefix |-> "PREFIX_EXPRESSION", ifx |-> "IF_EXPRESSION", fcallx |-> "FUNCTIONCALL_EXPRESSION"]
 \* Decoder.decode: the frame types accepted where a statement is expected
@@ -156,14 +156,16 @@ Items(n, kinds, lenient) == [f |-> "items", n |-> n, t |-> "", kinds |-> kinds, 
 \*   node     the child frame (a nil expression is written as an UNKNOWN frame)
 \*   optnode  the child frame if the field is not nil
 \*   list     every element, then END
+\*   optlist  as list, but nothing at all for an empty list
+\*   rawlist  every element, no END (the elements are recognised by their frame type)
 \*   iftrue   BOOL true if the flag is set, nothing otherwise
 EncF(kd) ==
   CASE kd \in {"set", "add"} -> <<D("node", "ident", ""), D("node", "op", ""), D("node", "value", "")>>
     [] kd \in {"unset", "remove"} -> <<D("node", "ident", "")>>
     [] kd = "declare" -> <<D("node", "name", ""), D("node", "vtype", ""), D("optnode", "value", "")>>
-    [] kd = "call" -> <<D("node", "sub", "")>>                                   \* Arguments are not written
+    [] kd = "call" -> <<D("node", "sub", ""), D("optlist", "args", "")>>         \* arguments and END only if there are any
     [] kd \in {"fcall", "fcallx"} -> <<D("node", "fn", ""), D("list", "args", "")>>
-    [] kd = "error" -> <<D("node", "code", ""), D("optnode", "arg", "")>>        \* nil Code -> UNKNOWN frame
+    [] kd = "error" -> <<D("optnode", "code", ""), D("optnode", "arg", "")>>
     [] kd \in {"esi", "restart", "break", "fallthrough"} -> <<>>
     [] kd \in {"log", "synthetic", "synthetic64"} -> <<D("node", "value", "")>>
     [] kd = "goto" -> <<D("node", "dest", "")>>
@@ -184,7 +186,8 @@ EncF(kd) ==
     [] kd = "director" -> <<D("node", "name", ""), D("node", "dtype", ""), D("list", "props", "")>>
     [] kd = "dbackend" -> <<D("list", "props", "")>>
     [] kd = "table" -> <<D("node", "name", ""), D("optnode", "vtype", ""), D("list", "props", "")>>
-    [] kd = "sub" -> <<D("node", "name", ""), D("optnode", "rtype", ""), D("node", "block", "")>>   \* Parameters are not written
+    [] kd = "sub" -> <<D("node", "name", ""), D("rawlist", "params", ""), D("optnode", "rtype", ""), D("node", "block", "")>>
+    [] kd = "param" -> <<D("node", "type", ""), D("node", "name", "")>>
     [] kd = "group" -> <<D("node", "e", "")>>
     [] kd = "infix" -> <<D("optnode", "left", ""), D("node", "op", ""), D("node", "right", "")>>
     [] kd = "postfix" -> <<D("node", "left", ""), D("node", "op", "")>>
@@ -195,14 +198,16 @@ EncF(kd) ==
 Tok(t, sz, len, v) == [t |-> t, sz |-> sz, len |-> len, v |-> v, part |-> ""]
 EndTok == Tok("END", 0, 0, "")
 FinTok == Tok("FIN", 0, 0, "")
+\* frame.go Encode: a value (leaf) frame of 65535 bytes or more has 0xFFFF in the 16-bit field and a 32-bit length after it
+HdrLen(tk) == IF tk.t \in LeafTypes /\ tk.sz >= 65535 THEN 7 ELSE 3
 RECURSIVE ByteLen(_)
 ByteLen(s) == IF s = <<>> THEN 0
-              ELSE (IF Head(s).t \in {"END", "FIN"} THEN 1 ELSE 3 + Head(s).len) + ByteLen(Tail(s))
+              ELSE (IF Head(s).t \in {"END", "FIN"} THEN 1 ELSE HdrLen(Head(s)) + Head(s).len) + ByteLen(Tail(s))
 
 RECURSIVE EncNode(_), EncFlds(_, _, _), EncList(_, _)
 EncNode(x) ==
   IF x.k = "nil" THEN <<Tok("UNKNOWN", 0, 0, "")>>
-  ELSE IF x.k \in LeafKinds THEN <<Tok(LeafFT[x.k], PayLen(x) % 65536, PayLen(x), x.v)>>   \* Frame.Encode: 16-bit length
+  ELSE IF x.k \in LeafKinds THEN <<Tok(LeafFT[x.k], PayLen(x), PayLen(x), x.v)>>
   ELSE LET body == EncFlds(x, EncF(x.k), 1) IN <<Tok(FT[x.k], ByteLen(body) % 65536, 0, "")>> \o body
 EncFlds(x, fds, i) ==
   IF i > Len(fds) THEN <<>>
@@ -211,6 +216,8 @@ EncFlds(x, fds, i) ==
            here == CASE fd.f = "node" -> EncNode(val)
                      [] fd.f = "optnode" -> IF val = Nil THEN <<>> ELSE EncNode(val)
                      [] fd.f = "list" -> EncList(val, 1) \o <<EndTok>>
+                     [] fd.f = "optlist" -> IF val = <<>> THEN <<>> ELSE EncList(val, 1) \o <<EndTok>>
+                     [] fd.f = "rawlist" -> EncList(val, 1)
                      [] fd.f = "iftrue" -> IF val THEN <<Tok("BOOL_VALUE", 1, 1, "true")>> ELSE <<>>
        IN here \o EncFlds(x, fds, i + 1)
 EncList(l, i) == IF i > Len(l) THEN <<>> ELSE EncNode(l[i]) \o EncList(l, i + 1)
@@ -229,17 +236,20 @@ Enc(x) == EncNode(x) \o <<FinTok>>          \* Encoder.Encode
 \*   block       peek must be BLOCK_STATEMENT, then statements until END
 \*   optelse     ELSE_STATEMENT if peeked, then as block
 \*   stmts/exprs loop until END: FIN is an error, anything else is decoded as a statement / expression
+\*   optexprs    as exprs, but only if isExpressionFrame(peekFrame)
 \*   items       loop until END: FIN is an error, the listed frame types are decoded; any other frame is an
-\*               error - or, if lenient, silently skipped (decodeIfStatement's Another loop has no default arm)
+\*               error - or, if lenient, silently skipped (no list is lenient any more: decodeIfStatement's
+\*               else-if loop used to have no default arm and spun for ever at the end of a truncated input)
+\*   peekitems   while peekFrame has one of the listed types: decode it (no END)
 \*   truebool    BOOL if peeked (case fallthrough)
 DecF(kd) ==
   CASE kd \in {"set", "add"} -> <<D("leaf", "ident", "IDENT_VALUE"), D("leaf", "op", "OPERATOR"), D("expr", "value", "")>>
     [] kd = "unset" -> <<D("leaf", "ident", "IDENT_VALUE")>>
     [] kd = "remove" -> <<D("leaf", "ident", "IDENT_VALUE")>>
     [] kd = "declare" -> <<D("leaf", "name", "IDENT_VALUE"), D("leaf", "vtype", "IDENT_VALUE"), D("optexpr", "value", "")>>
-    [] kd = "call" -> <<D("leaf", "sub", "IDENT_VALUE")>>
+    [] kd = "call" -> <<D("leaf", "sub", "IDENT_VALUE"), D("optexprs", "args", "")>>
     [] kd \in {"fcall", "fcallx"} -> <<D("leaf", "fn", "IDENT_VALUE"), D("exprs", "args", "")>>
-    [] kd = "error" -> <<D("expr", "code", ""), D("optexpr", "arg", "")>>
+    [] kd = "error" -> <<D("optexpr", "code", ""), D("optexpr", "arg", "")>>
     [] kd \in {"esi", "restart", "break", "fallthrough"} -> <<>>
     [] kd \in {"log", "synthetic", "synthetic64"} -> <<D("expr", "value", "")>>
     [] kd = "goto" -> <<D("leaf", "dest", "IDENT_VALUE")>>
@@ -247,7 +257,7 @@ DecF(kd) ==
     [] kd = "include" -> <<D("leaf", "module", "STRING_VALUE")>>
     [] kd = "return" -> <<D("leaf", "hp", "BOOL_VALUE"), D("optexpr", "expr", "")>>
     [] kd = "if" -> <<D("leaf", "keyword", "STRING_VALUE"), D("expr", "cond", ""), D("block", "then", ""),
-                      Items("elifs", [IF_STATEMENT |-> "if"], TRUE), D("optelse", "else", "")>>
+                      Items("elifs", [IF_STATEMENT |-> "if"], FALSE), D("optelse", "else", "")>>
     [] kd = "block" -> <<D("stmts", "stmts", "")>>
     [] kd = "switch" -> <<D("expr", "control", ""), Items("cases", [CASE_STATEMENT |-> "case"], FALSE),
                           D("optleaf", "dflt", "INTEGER_VALUE")>>
@@ -264,7 +274,9 @@ DecF(kd) ==
     [] kd = "dbackend" -> <<Items("props", [DIRECTOR_PROPERTY |-> "dprop"], FALSE)>>
     [] kd = "table" -> <<D("leaf", "name", "IDENT_VALUE"), D("optleaf", "vtype", "IDENT_VALUE"),
                          Items("props", [TABLE_PROPERTY |-> "tprop"], FALSE)>>
-    [] kd = "sub" -> <<D("leaf", "name", "IDENT_VALUE"), D("optleaf", "rtype", "IDENT_VALUE"), D("block", "block", "")>>
+    [] kd = "sub" -> <<D("leaf", "name", "IDENT_VALUE"), [Items("params", [SUBROUTINE_PARAMETER |-> "param"], FALSE) EXCEPT !.f = "peekitems"],
+                       D("optleaf", "rtype", "IDENT_VALUE"), D("block", "block", "")>>
+    [] kd = "param" -> <<D("leaf", "type", "IDENT_VALUE"), D("leaf", "name", "IDENT_VALUE")>>
     [] kd = "group" -> <<D("expr", "e", "")>>
     [] kd = "infix" -> <<D("optexpr", "left", ""), D("leaf", "op", "OPERATOR"), D("expr", "right", "")>>
     [] kd = "postfix" -> <<D("expr", "left", ""), D("leaf", "op", "OPERATOR")>>
@@ -277,25 +289,24 @@ Peek(s, p) == IF p > Len(s) THEN "UNKNOWN"
               ELSE IF s[p].part # "" THEN "UNKNOWN"
               ELSE s[p].t
 \* decoder.go nextFrame: FIN is sticky; at the end of input an UNKNOWN frame is returned for ever;
-\* a header cut after its type byte is UNKNOWN; a header cut inside the length keeps its type (length = garbage)
+\* a header cut after its type byte or inside its length is UNKNOWN (io.ReadFull)
 Next(s, p) == IF p > Len(s) THEN [tok |-> UnknownTok, p |-> p, eof |-> TRUE]
               ELSE IF s[p].t = "FIN" THEN [tok |-> s[p], p |-> p, eof |-> FALSE]
-              ELSE IF s[p].part = "hdr1" THEN [tok |-> UnknownTok, p |-> p + 1, eof |-> FALSE]
+              ELSE IF s[p].part \in {"hdr1", "hdr2"} THEN [tok |-> UnknownTok, p |-> p + 1, eof |-> FALSE]
               ELSE [tok |-> s[p], p |-> p + 1, eof |-> FALSE]
 
 R(r, p, n) == [r |-> r, p |-> p, n |-> n]
 \* Frame.Read + the access to the payload each leaf decoder makes
 ReadLeaf(tok, t) ==
   IF tok.t # t THEN "err"                                   \* typeMismatch
-  ELSE IF tok.part = "hdr2" THEN "err"                      \* garbage length, no payload: Read fails with EOF
-  ELSE IF tok.sz = 0 THEN "err"                             \* Frame.Read of 0 bytes returns EOF
-  ELSE IF tok.len < tok.sz THEN "err"                       \* payload cut short (end of input)
-  ELSE IF tok.len > tok.sz THEN "desync"                    \* 16-bit length wrapped: the rest of the payload is read as frames
-  ELSE IF t \in {"INTEGER_VALUE", "FLOAT_VALUE"} /\ tok.sz < 8 THEN "panic"   \* buf[:8]
+  ELSE IF tok.len < tok.sz THEN "err"                       \* payload cut short (end of input): io.ReadFull fails
+  ELSE IF tok.len > tok.sz THEN "desync"                    \* the rest of the payload would be read as frames
+  ELSE IF t = "BOOL_VALUE" /\ tok.sz < 1 THEN "err"         \* a zero-length payload is fine for every other leaf
+  ELSE IF t \in {"INTEGER_VALUE", "FLOAT_VALUE"} /\ tok.sz < 8 THEN "err"
   ELSE "ok"
 LeafNode(tok) == IF tok.t = "BOOL_VALUE" THEN [k |-> "bool", v |-> tok.v] ELSE [k |-> FTLeafKind[tok.t], v |-> tok.v]
 
-RECURSIVE DecKind(_, _, _), DecFlds(_, _, _, _, _), DecLoop(_, _, _, _), DecExprTok(_, _, _), DecStmtTok(_, _, _)
+RECURSIVE DecKind(_, _, _), DecFlds(_, _, _, _, _), DecLoop(_, _, _, _), DecPeek(_, _, _, _), DecExprTok(_, _, _), DecStmtTok(_, _, _)
 DecExprTok(s, p, tok) ==
   IF tok.t \in LeafTypes \ {"OPERATOR"}
   THEN LET rl == ReadLeaf(tok, tok.t) IN IF rl = "ok" THEN R("ok", p, LeafNode(tok)) ELSE R(rl, p, Nil)
@@ -334,6 +345,10 @@ DecFlds(s, p, node, fds, i) ==
                            ELSE Skip
     [] fd.f \in {"stmts", "exprs", "items"} ->
          LET l == DecLoop(s, p, fd, <<>>) IN IF l.r = "ok" THEN Cont(l.p, l.n) ELSE l
+    [] fd.f = "optexprs" -> IF pk \in ExprTypes
+                            THEN LET l == DecLoop(s, p, [fd EXCEPT !.f = "exprs"], <<>>) IN IF l.r = "ok" THEN Cont(l.p, l.n) ELSE l
+                            ELSE Skip
+    [] fd.f = "peekitems" -> LET l == DecPeek(s, p, fd, <<>>) IN IF l.r = "ok" THEN Cont(l.p, l.n) ELSE l
 DecLoop(s, p, fd, acc) ==
   LET nx == Next(s, p)
       More(d) == IF d.r = "ok" THEN DecLoop(s, d.p, fd, Append(acc, d.n)) ELSE d
@@ -348,6 +363,12 @@ DecLoop(s, p, fd, acc) ==
               ELSE IF nx.eof THEN R("hang", p, Nil)                         \* UNKNOWN for ever, no arm leaves the loop
               ELSE IF nx.tok.len > 0 THEN R("desync", nx.p, Nil)            \* payload of the skipped frame is read as frames
               ELSE DecLoop(s, nx.p, fd, acc)
+
+DecPeek(s, p, fd, acc) ==
+  IF Peek(s, p) \in DOMAIN fd.kinds
+  THEN LET d == DecKind(s, Next(s, p).p, fd.kinds[Peek(s, p)]) IN
+       IF d.r = "ok" THEN DecPeek(s, d.p, fd, Append(acc, d.n)) ELSE d
+  ELSE R("ok", p, acc)
 
 RECURSIVE DecTop(_, _, _)
 DecTop(s, p, acc) ==                                                         \* Decoder.Decode
@@ -452,7 +473,7 @@ Decls == Acls \cup Backends \cup Directors \cup Tables \cup Subs
 \* header across the buffer boundary (pad = number of leading `esi;` statements, one 3-byte frame each)
 RECURSIVE Rep(_, _)
 Rep(x, n) == IF n = 0 THEN <<>> ELSE <<x>> \o Rep(x, n - 1)
-Pads == IF Thorough THEN 0..11 ELSE 0..5
+Pads == IF Thorough THEN 0..15 ELSE 0..7
 Longs == {[k |-> "sub", name |-> Id("vcl_recv"), params |-> <<>>, rtype |-> Nil,
            block |-> Blk(Rep(Esi, pad) \o Rep(Set("=", Str("x")), 180))] : pad \in Pads}
 Nodes == Stmts \cup Decls \cup Longs
@@ -467,7 +488,7 @@ Nodes == Stmts \cup Decls \cup Longs
 (*   splice  the first i tokens, then the tokens of another encoding from j*)
 (***************************************************************************)
 SubTypes == {"END", "FIN", "UNKNOWN", "IF_STATEMENT", "BLOCK_STATEMENT", "STRING_VALUE", "INTEGER_VALUE",
-             "BOOL_VALUE", "IDENT_VALUE", "OPERATOR", "ELSE_STATEMENT", "CASE_STATEMENT", "VCL"}
+             "BOOL_VALUE", "IDENT_VALUE", "OPERATOR", "ELSE_STATEMENT", "CASE_STATEMENT", "SUBROUTINE_PARAMETER", "VCL"}
 NoMut == [m |-> "none", i |-> 0, part |-> "", t |-> "", kk |-> 0]
 Muts(s) ==
   {NoMut}
